@@ -1572,3 +1572,100 @@ fn c02_output_tail_n3() {
     std::mem::forget(r);
     std::mem::forget(circ);
 }
+
+// ------------------------------------------------------------------------------------------
+// C06: the revealed input bit is masked by a mask that contains the party's own share, the own
+// share of an own input wire is never put into an outgoing message, and the global key is a
+// fresh draw (freshness across executions / uniformity are distributional and NOT claimed)
+
+/// C06 - masked input == input ^ own mask share ^ every peer's mask share (n = 2): in particular
+/// the own share - which the party does not send to anybody, see c06_own_input_share_not_sent -
+/// is part of the mask.
+#[kani::proof]
+#[kani::unwind(6)]
+#[kani::stub(std::fmt::format, no_format)]
+fn c06_masked_input_contains_own_share() {
+    let circ = ip_circuit(0, 1, 0, 0);
+    let delta = Delta(kani::any());
+    let input: bool = kani::any();
+    let inputs = [input];
+    let own = [any_share2(), any_share2()];
+    let own_bit0 = own[0].0;
+    let own_key0 = own[0].1 .0[1].1 .0;
+    let pb: bool = kani::any();
+    // an honest peer: valid MAC on its share of wire 0
+    let peer0 = Some((pb, Mac(own_key0 ^ (if pb { delta.0 } else { 0 }))));
+    let [s0, s1] = own;
+    let ch = NoChan;
+    let ctx = mk_ctx(&ch, &circ, &inputs, 1, 0, &NO_PARTIES);
+    let r = seg_ip_mid(&ctx, &circ, &inputs, 0, 2, delta, vec![s0, s1], vec![vec![], vec![peer0, None]]);
+    let ok = r.is_ok();
+    assert!(ok, "C06:input:honest-peer-share-accepted");
+    if let Ok(masked) = &r {
+        assert!(masked.len() == 2 && masked[0] == Some(input ^ own_bit0 ^ pb), "C06:input:revealed-bit==input^own-mask-share^peer-mask-share");
+        assert!(masked.len() == 2 && masked[1].is_none(), "C06:input:nothing-revealed-for-foreign-wires");
+    }
+    kani::cover!(ok, "masked_input_reachable");
+    std::mem::forget(r);
+    std::mem::forget(circ);
+}
+
+/// C06 - the party's own mask share of an own input wire appears in no outgoing "wire shares"
+/// message (n = 3, own index 1, two input instructions with symbolic owners).
+#[kani::proof]
+#[kani::unwind(6)]
+#[kani::stub(std::fmt::format, no_format)]
+fn c06_own_input_share_not_sent() {
+    let party0: u32 = kani::any();
+    let party1: u32 = kani::any();
+    kani::assume(party0 < 3 && party1 < 3);
+    let circ = Circuit {
+        input_regs: vec![1, 1, 1],
+        insts: vec![
+            Inst { out: Reg(0), op: Op::Input(Input { party: party0, input: 0 }) },
+            Inst { out: Reg(1), op: Op::Input(Input { party: party1, input: 0 }) },
+        ],
+        max_reg_count: 2,
+        output_regs: vec![Reg(0)],
+        and_ops: 0,
+    };
+    let mk = || Share(kani::any(), Auth(vec![(Mac(kani::any()), Key(0)), (Mac(0), Key(0)), (Mac(kani::any()), Key(0))]));
+    let ch = NoChan;
+    let ctx = mk_ctx(&ch, &circ, &NO_INPUTS, 0, 1, &NO_PARTIES);
+    let r = seg_ip_pre(&ctx, &circ, 1, 3, vec![mk(), mk()]);
+    let ok = r.is_ok();
+    assert!(ok, "C06:input:message-building-Ok");
+    if let Ok(w) = &r {
+        let owners = [party0, party1];
+        let mut good = w.len() == 3;
+        let mut p = 0;
+        while p < 3 {
+            let mut reg = 0;
+            while reg < 2 {
+                if w.len() == 3 && w[p].len() == 2 && owners[reg] == 1 {
+                    good &= w[p][reg].is_none();
+                }
+                reg += 1;
+            }
+            p += 1;
+        }
+        assert!(good, "C06:input:own-share-of-an-own-input-wire-is-sent-to-nobody");
+    }
+    kani::cover!(ok && party0 == 1, "own_input_reachable");
+    std::mem::forget(r);
+    std::mem::forget(circ);
+}
+
+/// C06 - the global key is one fresh random draw (not a constant, not derived from anything).
+#[kani::proof]
+#[kani::unwind(6)]
+fn c06_delta_is_a_random_draw() {
+    let r: [u128; 4] = [kani::any(), kani::any(), kani::any(), kani::any()];
+    unsafe {
+        ENV_R = r;
+        ENV_R_NEXT = 0;
+    }
+    let d = seg_delta_draw();
+    assert!(d.0 == r[0] && unsafe { ENV_R_NEXT } == 1, "C06:delta==one-fresh-random-draw");
+    kani::cover!(d.0 != 0, "delta_draw_reachable");
+}
